@@ -7,6 +7,7 @@ import (
 	"fmt"
 	"os"
 	"path/filepath"
+	"strconv"
 	"strings"
 	"time"
 
@@ -30,16 +31,23 @@ func init() {
 }
 
 func runC06(r *Run) {
-	switch r.Tape.Pick([]int{5, 4, 2}) {
+	pick := r.Tape.Pick([]int{5, 4, 2, 1})
+	if v := os.Getenv("SIM_C06_SCENARIO"); v != "" { // developer override
+		pick, _ = strconv.Atoi(v)
+	}
+	switch pick {
 	case 0:
 		r.Cfg["scenario"] = "positions"
 		c06Positions(r)
 	case 1:
 		r.Cfg["scenario"] = "offered"
 		c06Offered(r)
-	default:
+	case 2:
 		r.Cfg["scenario"] = "cluster"
 		c06Cluster(r)
+	default:
+		r.Cfg["scenario"] = "primary-restored"
+		c06PrimaryRestored(r)
 	}
 }
 
@@ -691,4 +699,164 @@ func c06Cluster(r *Run) {
 	}
 	cs.audit()
 	r.State("cluster/%d/faults%d", len(cs.cl.Nodes), faultW)
+}
+
+// c06PrimaryRestored: the history that changes is the primary's own. The
+// primary has a backup service; a replica follows it over an open stream and is
+// caught up (or a little behind). The service then holds another history of the
+// database (a fork from nothing, or a continuation of an earlier state of the
+// primary that the primary itself did not take) and the next backup sync makes
+// the primary adopt the service's snapshot. The replica's position is now not
+// on the primary's history - higher or equal transaction id with another
+// checksum, or lower but on the old branch: without any further commit it has
+// to receive a snapshot and end byte-identical to the primary at the primary's
+// position; no incremental file may be applied on top of its old data; and it
+// follows the primary's next commits.
+func c06PrimaryRestored(r *Run) {
+	t := r.Tape
+	compress := t.Chance(1, 2)
+	pr := newPair(r, compress, 0)
+	dir := filepath.Join(r.Dir, "backup")
+	bc := litefs.NewFileBackupClient(dir)
+	if err := bc.Open(); err != nil {
+		r.Inconclusive("backup open: %v", err)
+		return
+	}
+	svc := &c14file{dir: dir, c: bc}
+	pr.p.PreOpen = func(n *Node) { n.Store.BackupClient = bc }
+	pr.p.Cfg.Tune = func(s *litefs.Store) {
+		s.ReconnectDelay = 20 * time.Millisecond
+		s.BackupDelay = 0 // syncs are explicit
+		s.RetentionMonitorInterval = 0
+	}
+	pr.rep.PreOpen = func(n *Node) { installApplyMonitor(r, n, "c06") }
+	if !pr.open() {
+		return
+	}
+	h := &hist{r: r, n: pr.p, name: "db"}
+	h.pageSize = []uint32{512, 1024, 4096}[t.Next(3)]
+	h.jmode = []string{ModeDelete, ModeTruncate, ModePersist}[t.Next(3)]
+	h.maxPages = 16
+	if !h.openConns(1) {
+		return
+	}
+	commits := func(n int) bool {
+		for i := 0; i < n && !r.Failed(); i++ {
+			h.commit(t)
+		}
+		return !r.Failed()
+	}
+	if !commits(t.Range(1, 5)) || h.ref.N() == 0 {
+		return
+	}
+	ctx := context.Background()
+	if t.Chance(1, 2) {
+		// the service knows the primary's history so far
+		h.closeConns()
+		if err := pr.p.Store.SyncBackup(ctx); err != nil {
+			r.Inconclusive("first sync: %v", err)
+			return
+		}
+		if !h.openConns(1) {
+			return
+		}
+	}
+	// the other history: built now (branching here) or from nothing
+	fork := t.Chance(1, 2)
+	h.closeConns()
+	names, data, ok := c14DonorFiles(r, t, h, compress, t.Range(0, 3), fork)
+	if !ok {
+		r.Inconclusive("donor history")
+		return
+	}
+	if !h.openConns(1) {
+		return
+	}
+	// the primary goes its own way; the replica follows
+	if !commits(t.Range(0, 7)) {
+		return
+	}
+	behind := t.Chance(1, 4)
+	if !behind && !pr.waitReplica(h.name, 20*time.Second) {
+		r.Failf("c06.follow", "the replica did not reach the primary's position %s in 20 s (it is at %s)", posOf(pr.p, h.name), posOf(pr.rep, h.name))
+		return
+	}
+	repBefore, priBefore := posOf(pr.rep, h.name), posOf(pr.p, h.name)
+	// the service now holds the other history
+	svc.wipe(h.name)
+	for k := range names {
+		svc.put(h.name, names[k], data[k])
+	}
+	spos, sIm, msg := c14chain(names, data)
+	if msg != "" {
+		r.Inconclusive("donor chain: %s", msg)
+		return
+	}
+	h.closeConns()
+	if err := pr.p.Store.SyncBackup(ctx); err != nil {
+		r.Inconclusive("sync: %v", err)
+		return
+	}
+	if r.Failed() {
+		return
+	}
+	if pr.p.Exited || pr.rep.Exited {
+		r.Failf("c06.exit", "a node stopped when the primary was restored from its backup service (primary exited=%v, replica exited=%v)", pr.p.Exited, pr.rep.Exited)
+		return
+	}
+	ppos := posOf(pr.p, h.name)
+	if ppos != spos {
+		// no restore happened (the service could be extended after all)
+		r.Count("c06.restored.not-restored")
+		return
+	}
+	rel := "higher"
+	switch {
+	case repBefore.TXID == ppos.TXID:
+		rel = "equal-id"
+	case repBefore.TXID < ppos.TXID:
+		rel = "lower"
+	}
+	r.Count("c06.forced-snapshot")
+	r.Count("c06.restored." + rel)
+	r.Logf("primary restored %s -> %s; replica was at %s (%s)", priBefore, ppos, repBefore, rel)
+	if !waitPos(pr.rep, h.name, ppos, 30*time.Second) {
+		r.Failf("c06.primary-restored", "the primary adopted its backup service's snapshot (%s -> %s) while the replica, at %s on the primary's former history, had an open stream; 30 s later and without a new commit the replica is still at %s: it has not been given a snapshot of the primary's state", priBefore, ppos, repBefore, posOf(pr.rep, h.name))
+		return
+	}
+	if rdb := pr.rep.Store.DB(h.name); rdb != nil {
+		disk, err := ReadDiskImage(rdb.Path())
+		if r.Check(err == nil, "c06.read", "%v", err) {
+			if d := DiffImages(disk, sIm); d != "" {
+				r.Failf("c06.primary-restored-image", "after the primary was restored to %s the replica reports that position but its database differs from the primary's: %s", ppos, d)
+				return
+			}
+		}
+	}
+	// and it keeps following
+	h.ref, h.wal = sIm, false
+	if sIm.N() > 0 {
+		hh, _, _ := decodeDBHeader(sIm.Pages[0])
+		h.wal = hh.WAL
+	}
+	if !h.openConns(1) {
+		return
+	}
+	if !commits(t.Range(1, 3)) {
+		return
+	}
+	if !pr.waitReplica(h.name, 20*time.Second) {
+		r.Failf("c06.primary-restored-follow", "after the primary was restored to %s and committed again the replica did not reach its position %s (it is at %s)", ppos, posOf(pr.p, h.name), posOf(pr.rep, h.name))
+		return
+	}
+	h.closeConns()
+	if rdb := pr.rep.Store.DB(h.name); rdb != nil {
+		disk, err := ReadDiskImage(rdb.Path())
+		if err == nil && h.ref != nil && !h.wal {
+			if d := DiffImages(disk, h.ref); d != "" {
+				r.Failf("c06.primary-restored-image", "after the restore and %s the replica's database differs from the primary's: %s", posOf(pr.p, h.name), d)
+			}
+		}
+	}
+	r.State("restored/%s/%v/%v", rel, fork, behind)
 }
